@@ -444,6 +444,17 @@ def std_queries(n, rng, k_random=3):
     return out
 
 
+def pick_queries(n, rng, k_random, count):
+    """count representative queries: the full query, then a random sample of the rest (so that interior
+    ranges, cuts through groups and past-the-end forms all appear across a run, not only the first few)"""
+    qs = std_queries(n, rng, k_random)
+    if len(qs) <= count:
+        return qs
+    if count <= 2:
+        return rng.sample(qs, count)
+    return qs[:1] + rng.sample(qs[1:], count - 1)
+
+
 ENC_SIZES = [0, 1, 1024, 1025, 2048, 2049, 3 * 1024, 4 * 1024 + 1, 5 * 1024 + 7, 8 * 1024, 8 * 1024 + 1, 13 * 1024 + 100, 16 * 1024]
 
 
@@ -480,7 +491,7 @@ def gen_c05(tier, rng):
         n = nchunks(size)
         for bs in range(0, 3 if tier == "quick" else 4):
             oblen = 64 * (max(1, -(-n // (1 << bs))) - 1)
-            for q in std_queries(n, rng, 1)[: (6 if tier == "quick" else 30)]:
+            for q in pick_queries(n, rng, 1, (6 if tier == 'quick' else 30)):
                 cors = []
                 stride = 997 if tier == "quick" else 257
                 for pos in list(range(0, size, stride)) + [size - 1]:
@@ -632,7 +643,7 @@ def gen_c09(tier, rng):
     for size in sizes:
         n = nchunks(size)
         for bs in range(0, 3):
-            for q in std_queries(n, rng, 0)[: (4 if tier == "quick" else 12)]:
+            for q in pick_queries(n, rng, 0, (4 if tier == 'quick' else 12)):
                 if not q:
                     continue
                 lay = honest_layout(size, bs, q)
@@ -654,7 +665,7 @@ def gen_c01(tier, rng):
     for size in sizes:
         n = nchunks(size)
         for bs in range(0, 3 if tier == "quick" else 4):
-            for q in std_queries(n, rng, 1)[: (5 if tier == "quick" else 20)]:
+            for q in pick_queries(n, rng, 1, (5 if tier == 'quick' else 20)):
                 if not q:
                     continue
                 kind = rng.choice(contents)
@@ -733,7 +744,7 @@ def gen_c20(tier, rng):
     for size in ([0, 1, 1024, 1025, 3000, 8 * 1024 + 1] if tier == "quick" else [0, 1, 1024, 1025, 2048, 3000, 5 * 1024, 8 * 1024 + 1, 16 * 1024]):
         n = nchunks(size)
         for bs in range(0, 3):
-            for q in std_queries(n, rng, 1)[: (6 if tier == "quick" else 20)]:
+            for q in pick_queries(n, rng, 1, (6 if tier == 'quick' else 20)) + [[]]:
                 sd = seed(rng)
                 lay = honest_layout(size, bs, q)
                 L = sum(x[2] for x in lay)
@@ -790,7 +801,7 @@ def gen_c06(tier, rng):
         n = nchunks(size)
         for bs in range(0, 3 if tier == "quick" else 4):
             oblen = 64 * (max(1, -(-n // (1 << bs))) - 1)
-            for q in std_queries(n, rng, 1)[: (5 if tier == "quick" else 24)]:
+            for q in pick_queries(n, rng, 1, (5 if tier == 'quick' else 24)):
                 cors = [[]]
                 stride = 1499 if tier == "quick" else 311
                 for pos in list(range(0, size, stride)) + ([size - 1] if size else []):
@@ -1068,7 +1079,7 @@ def gen_sched(tier, rng, with_faults):
     for size in sizes:
         n = nchunks(size)
         for bs in range(0, 3):
-            for q in std_queries(n, rng, 1)[: (3 if tier == "quick" else 10)]:
+            for q in pick_queries(n, rng, 1, (3 if tier == 'quick' else 10)):
                 if not q:
                     continue
                 lay = honest_layout(size, bs, q)
@@ -1156,7 +1167,7 @@ def gen_c10(tier, rng):
             sd = seed(rng)
             for op, objs in OP_OBJECTS.items():
                 needs_q = op in (5, 6, 7, 8, 10, 11, 14)
-                qs = std_queries(n, rng, 1)[: (2 if tier == "quick" else 6)] if needs_q else [[]]
+                qs = pick_queries(n, rng, 1, (2 if tier == 'quick' else 6)) if needs_q else [[]]
                 if needs_q:
                     qs = [q for q in qs if q] or [[0]]
                 for q in qs:
@@ -1286,6 +1297,27 @@ def gen_c14_cross(tier, rng):
                     cases.append(("encode", [0, sd, size, bs, e, rng.randrange(0, 4), 0] + q2))
                     d, sk = rng.choice(drivers_and_sinks(rng, False))
                     cases.append(dec_case(0, sd, size, bs, size, d, sk, q1, qs=q2))
+    # a provider that holds only a prefix of the blob (with the complete outboard): queries are canonicalised
+    # against the blob's size, not the size of what is stored; a query ending at the end of the prefix is served
+    for size in ([5 * 1024 + 7, 16 * 1024 + 1] if tier == "quick" else [2049, 5 * 1024 + 7, 8 * 1024, 16 * 1024 + 1, 31 * 1024]):
+        n = nchunks(size)
+        for bs in (0, 1, 2):
+            g = 1 << bs
+            groups = -(-n // g)
+            if groups < 2:
+                continue
+            for _ in range(2 if tier == "quick" else 6):
+                c = rng.randrange(1, groups) * g          # chunks held (group aligned)
+                cuts = [c * 1024, c * 1024 + rng.randrange(1, 1024)]
+                a0 = rng.randrange(0, c)
+                qs = [[0, c], [a0, c], [0, max(1, c - 1)], [0, c + 1], [0, 1, a0 + 1, c] if a0 >= 1 else [0, c]]
+                sd = seed(rng)
+                qs = [q for q in qs if all(q[i] < q[i + 1] for i in range(len(q) - 1))]
+                for cut in cuts:
+                    for q in qs:
+                        # (the non-validating encoders only at block size 0: above it they send partially selected groups whole, finding F6)
+                        for e in (range(0, 5) if bs == 0 else (0, 1, 4)):
+                            cases.append(("encode", [0, sd, size, bs, e, rng.randrange(0, 4), 1, 4, min(cut, size), 0] + q))
     return cases
 
 
@@ -1294,7 +1326,8 @@ PROPS["C14"] = Prop(
     "ranges(truncate): every boundary subset in 0..nchunks+2 for every byte-size class up to 6 (quick) / 8 (thorough) chunks, plus random sizes up to "
     "2^63 with boundaries around the end and at u64::MAX; cross: for blobs of 1..3 (quick) / 0..5 chunks every class of queries selecting the same chunks "
     "(subsets of 0..nchunks+2 plus u64::MAX-ended ones): sampled pairs are encoded (identical bytes expected, compared with the spec) and the encoding "
-    "of one is decoded with the other (sync and fsm, all sinks). non-trivial = non-empty query",
+    "of one is decoded with the other (sync and fsm, all sinks); providers holding only a group-aligned (+ a few bytes) prefix of the blob with the complete "
+    "outboard, all five encoders, queries ending at / before / behind the end of the prefix. non-trivial = non-empty query",
     assumptions=["boundaries strictly sorted < 2^64, size <= 2^63"] + DEC_ASSUME,
 )
 
@@ -1312,7 +1345,7 @@ def gen_shortw(tier, rng):
         n = nchunks(size)
         for bs in (0, 2, 4) if tier == "quick" else (0, 1, 2, 3, 4):
             sd = seed(rng)
-            for q in std_queries(n, rng, 1)[: (3 if tier == "quick" else 8)]:
+            for q in pick_queries(n, rng, 1, (3 if tier == 'quick' else 8)):
                 if not q:
                     continue
                 for maxw in (1, 63, 1000, 4096) if tier == "thorough" else (rng.choice([1, 63, 1000]), 4096):
@@ -1324,6 +1357,7 @@ def gen_shortw(tier, rng):
                     # stores that return short positioned reads (page sizes not aligned to 64)
                     cases.append(("shortw", [0, sd, size, bs, 3, rng.choice([1, 7, 63, 100, 1000, 4096]), BIGCAP, rng.randrange(0, 2)] + q))
                     cases.append(("shortw", [0, sd, size, bs, 4, rng.choice([7, 100, 1000]), BIGCAP, rng.randrange(0, 2)] + q))
+                    cases.append(("shortw", [0, sd, size, bs, 5, rng.choice([1, 7, 63, 100, 1000, 4096]), BIGCAP, rng.randrange(0, 2)] + q))
             for maxw in (1, 31, 32, 33, 64, 1000):
                 cases.append(("shortw", [0, sd, size, bs, 2, maxw, BIGCAP, 0]))
                 cases.append(("shortw", [0, sd, size, bs, 2, maxw, rng.randrange(0, 64 * n + 1), 0]))
@@ -1334,7 +1368,7 @@ _c11 = PROPS["C11"]
 PROPS["C11"] = Prop(
     [F_SCHED, F_SHORTW], lambda tier, rng: gen_sched(tier, rng, False) + gen_shortw(tier, rng),
     _c11.rule + " shortw: the sync encoders and outboard_post_order writing into sinks that accept at most 1 / 31..33 / 63 / 64 / 1000 / 4096 bytes per "
-    "call (and sinks that fill up after a chosen number of bytes), and the sync validating encoder / validator reading an io-backed outboard and the data "
+    "call (and sinks that fill up after a chosen number of bytes), and the sync encoders (validating and not) / validator reading an io-backed outboard and the data "
     "through stores whose positioned reads never cross a page boundary (page sizes 1, 7, 63, 100, 1000, 4096).",
     trusted=_c11.trusted, assumptions=_c11.assumptions)
 _c10 = PROPS["C10"]
